@@ -16,7 +16,11 @@ RULE = ('texts over each predefined (and a few custom) alphabet with upper/lower
         'known labels, near-miss unknown labels at every position, hash-colliding unknown labels); KmerEncoding (all k-mers for '
         'small n^k, largest k-mer, foreign letter at every position, wrong lengths); two-dimensional blocks (rows of equal length) '
         'in C order, Fortran order, as transposed views, column / row slices of larger blocks and negative strides through '
-        'enc.encode, as_encoded_array, enc.decode, re-targeting and change_encoding, read back at every (row, column).  Non-trivial = the text '
+        'enc.encode, as_encoded_array, enc.decode, re-targeting and change_encoding, read back at every (row, column); sessions '
+        'in one process: the same text encoded several times (str, list, ragged, ndarray, base-array inputs), earlier results '
+        'edited in place (item, negative index, slice, broadcast, index list, mask, (row, column), whole row, a letter given as '
+        'an EncodedArray of a permuted alphabet), then encoded again / decoded / change_encoding, every result re-read after '
+        'all later calls.  Non-trivial = the text '
         'contains a foreign or lower-case character, or the pair is a cross-alphabet pair')
 EXHAUSTIVE = {'quick': False, 'thorough': False}
 TIE = 'translator+correspondence'
@@ -450,6 +454,236 @@ def _gen_2d(tier, rng):
     return cases
 
 
+# ----------------------------------------------------------------------------- sessions (state kept between calls)
+# A session is a list of public calls in ONE process: encodings of the same text, in-place edits of earlier results,
+# decode / change_encoding of results.  `focus` names the result that is read at the very end.  Spec: a result depends
+# only on its own arguments and on the edits made to IT; the Coq side gets the focus as an ordinary case (kind 0: a fresh
+# encoding of the text with the focus' own edits substituted; kind 2: decode / change_encoding of the parent's codes at
+# the time of the call) whose observation is what the focus holds after all later calls.
+def _edit_state(rows, flat, op, other_char=None):
+    """apply an edit to the ground-truth rows (lists of ints)"""
+    k = op[0]
+    if flat:
+        r = rows[0]
+        n = len(r)
+        if k == 'i':
+            r[op[1]] = ord(op[2])
+        elif k == 'iv':
+            r[op[1]] = other_char
+        elif k == 'sl':
+            idx = list(range(n))[slice(op[1], op[2], op[3])]
+            txt = op[4] if len(op[4]) == len(idx) else op[4] * len(idx)
+            for i, c in zip(idx, txt):
+                r[i] = ord(c)
+        elif k == 'li':
+            for i in op[1]:
+                r[i] = ord(op[2])
+        elif k == 'mask':
+            for i, m in enumerate(op[1]):
+                if m:
+                    r[i] = ord(op[2])
+        else:
+            raise ValueError(op)
+    else:
+        if k == 'rc':
+            rows[op[1]][op[2]] = ord(op[3])
+        elif k == 'row':
+            L = len(rows[op[1]])
+            txt = op[2] if len(op[2]) == L else op[2] * L
+            rows[op[1]] = [ord(c) for c in txt]
+        else:
+            raise ValueError(op)
+
+
+def _edit_np(x, op):
+    import numpy as np
+    from bionumpy.encoded_array import EncodedArray
+    k = op[0]
+    if k == 'i':
+        x[op[1]] = op[2]
+    elif k == 'iv':
+        x[op[1]] = EncodedArray(np.array([op[3]], dtype=np.uint8), _get_enc(op[2]))
+    elif k == 'sl':
+        x[slice(op[1], op[2], op[3])] = op[4]
+    elif k == 'li':
+        x[list(op[1])] = op[2]
+    elif k == 'mask':
+        x[np.array(op[1], dtype=bool)] = op[2]
+    elif k == 'rc':
+        x[op[1], op[2]] = op[3]
+    elif k == 'row':
+        x[op[1]] = op[2]
+    else:
+        raise ValueError(op)
+
+
+def _rand_edit(rng, A, rows, flat, allow_iv=None):
+    ch = lambda: chr(_rcase(rng, rng.choice(A)))
+    if flat:
+        n = len(rows[0])
+        kind = rng.choice(['i', 'i', 'neg', 'sl', 'slb', 'li', 'mask', 'step'] + (['iv'] if allow_iv else []))
+        if kind == 'i':
+            return ['i', rng.randrange(n), ch()]
+        if kind == 'neg':
+            return ['i', -1 - rng.randrange(n), ch()]
+        if kind == 'iv':
+            o = rng.choice(allow_iv)
+            return ['iv', rng.randrange(n), o, rng.randrange(len(_alpha(o)))]
+        if kind in ('sl', 'slb'):
+            a = rng.randrange(n)
+            b = rng.randint(a + 1, n)
+            return ['sl', a, b, None, ''.join(ch() for _ in range(b - a)) if kind == 'sl' else ch()]
+        if kind == 'step':
+            return ['sl', None, None, 2, ''.join(ch() for _ in range((n + 1) // 2))]
+        if kind == 'li':
+            return ['li', sorted(set(rng.randrange(n) for _ in range(2))), ch()]
+        m = [rng.random() < 0.5 for _ in range(n)]
+        m[rng.randrange(n)] = True
+        return ['mask', m, ch()]
+    nonempty = [i for i, r in enumerate(rows) if len(r)]
+    r = rng.choice(nonempty)
+    if rng.random() < 0.5:
+        return ['rc', r, rng.randrange(len(rows[r])), ch()]
+    return ['row', r, ''.join(ch() for _ in range(len(rows[r]))) if rng.random() < 0.6 else ch()]
+
+
+PERMUTED = {'ACGTEncoding': ['ACTGEncoding', 'ACGTnEncoding', 'custom:acgt'], 'ACTGEncoding': ['ACGTEncoding', 'ACTGnEncoding'],
+            'ACGTnEncoding': ['ACTGnEncoding'], 'ACTGnEncoding': ['ACGTnEncoding'],
+            'custom:acgt': ['ACGTEncoding', 'ACTGEncoding']}       # every letter of the key's alphabet is in the listed ones
+
+
+def _gen_sessions(tier, rng):
+    cases = []
+    names = [n for n, _ in PRE]
+    for a in ENCS:
+        A = _alpha(a)
+        n = len(A)
+        other = names[(ENCS.index(a) + 1) % len(names)]
+        for route in (0, 1, 2, 5, 3, 4, 6):
+            flat = route in (0, 1, 3, 6)
+            for rep in range(1 if tier == 'quick' else 4):
+                if flat:
+                    rows = [_s([_rcase(rng, rng.choice(A)) for _ in range(rng.randint(2, 6))])]
+                else:
+                    rows = [_s([_rcase(rng, rng.choice(A)) for _ in range(L)]) for L in rng.sample([0, 1, 2, 3, 4], rng.randint(2, 3))]
+                    if not any(rows):
+                        rows[0] = _s([A[0], A[-1]])
+                st = [[c for c in r.encode('latin1')] for r in rows]
+                E = lambda: ['enc', a, route, rows]
+                ed = lambda iv=None: _rand_edit(rng, A, st, flat, iv)
+                dsts = ['Base', a, other]
+                templates = [
+                    ([E(), ['set', 0, ed()], E()], [1, 0]),                               # edit the first, encode again
+                    ([E(), E(), ['set', 1, ed()], ['set', 1, ed()]], [0, 1]),             # later edits of the second
+                    ([E(), ['set', 0, ed()], ['set', 0, ed()], E(), ['dec', 1], ['chg', 1, rng.choice(dsts)]], [2, 3, 0]),
+                    ([E(), ['dec', 0], ['chg', 0, rng.choice(dsts)], ['set', 0, ed()], E()], [1, 2, 3]),
+                    ([E(), ['set', 0, ed()], ['enc', a, 0 if route != 0 else 1, rows[:1]], ['enc', a, 2, rows], E()], [1, 2, 3]),
+                ]
+                if flat and a in PERMUTED:
+                    templates.append(([E(), ['set', 0, ed(PERMUTED[a])], ['set', 0, ['iv', 0, PERMUTED[a][0], rng.randrange(min(4, n))]],
+                                       ['enc', PERMUTED[a][0], route, rows], E()], [0, 2, 1]))
+                for steps, foci in templates:
+                    for f in foci:
+                        cases.append(dict(kind=7, steps=steps, focus=f))
+    return cases
+
+
+def _session_results(steps):
+    """indices of the steps that create a result, in order"""
+    return [i for i, s in enumerate(steps) if s[0] in ('enc', 'dec', 'chg')]
+
+
+def _observe_session(case):
+    import numpy as np
+    import bionumpy as bnp
+    from bionumpy.encoded_array import EncodedArray, EncodedRaggedArray, BaseEncoding, EncodingException
+    from bionumpy.encodings.exceptions import EncodingError
+    results, meta, raised = [], [], {}
+    for si, s in enumerate(case['steps']):
+        if s[0] == 'enc':
+            enc, route, rows = _get_enc(s[1]), s[2], s[3]
+            fb = np.frombuffer(''.join(rows).encode('latin1'), dtype=np.uint8).copy()
+            try:
+                if route == 0:
+                    r = bnp.as_encoded_array(rows[0], enc)
+                elif route == 1:
+                    r = enc.encode(rows[0])
+                elif route == 2:
+                    r = bnp.as_encoded_array(list(rows), enc)
+                elif route == 5:
+                    r = enc.encode(list(rows))
+                elif route == 3:
+                    r = enc.encode(fb)
+                elif route == 4:
+                    r = enc.encode(EncodedRaggedArray(EncodedArray(fb, BaseEncoding), [len(x) for x in rows]))
+                else:
+                    r = bnp.as_encoded_array(EncodedArray(fb, BaseEncoding), enc)
+            except Exception as ex:
+                return dict(err='other', name='step %d: %s' % (si, type(ex).__name__))
+            results.append(r)
+            meta.append((s[1], route in (0, 1, 3, 6)))
+        elif s[0] == 'set':
+            try:
+                _edit_np(results[s[1]], s[2])
+            except (EncodingError, EncodingException) as ex:
+                if s[2][0] != 'iv':
+                    return dict(err='other', name='step %d: edit raised %s' % (si, type(ex).__name__))
+                raised[str(si)] = type(ex).__name__
+            except Exception as ex:
+                return dict(err='other', name='step %d: edit raised %s' % (si, type(ex).__name__))
+        else:
+            src_name, flat = meta[s[1]]
+            try:
+                if s[0] == 'dec':
+                    r = _get_enc(src_name).decode(results[s[1]])
+                    results.append(r)
+                    meta.append(('Base', flat))
+                else:
+                    meta.append((s[2], flat))
+                    r = bnp.change_encoding(results[s[1]], _get_enc(s[2]))
+                    results.append(r)
+            except Exception as ex:
+                if s[0] == 'dec':
+                    return dict(err='other', name='step %d: %s' % (si, type(ex).__name__))
+                results.append(_err(ex))          # e.g. the text is not in the target alphabet: that result is the error
+    f = case['focus']
+    name, flat = meta[f]
+    if isinstance(results[f], dict):
+        return dict(results[f], raised=raised)
+    o = _result(results[f], flat, name, _get_enc(name))
+    if 'codes' in o and not o['same_enc']:
+        return dict(err='other', name='result carries another encoding')
+    o['raised'] = raised
+    return o
+
+
+def _session_term(case, o):
+    """the focus as an ordinary Coq case (kind 0 or 2) — ground truth computed here from the steps"""
+    raised = o.get('raised', {}) if isinstance(o, dict) else {}
+    state = []            # per result: dict(enc, flat, rows (ints), origin)
+    for si, s in enumerate(case['steps']):
+        if s[0] == 'enc':
+            state.append(dict(enc=s[1], flat=s[2] in (0, 1, 3, 6), rows=[[c for c in r.encode('latin1')] for r in s[3]],
+                              origin=('enc', s[2])))
+        elif s[0] == 'set':
+            if str(si) in raised:
+                continue
+            st = state[s[1]]
+            oc = _alpha(s[2][2])[s[2][3]] if s[2][0] == 'iv' else None
+            _edit_state(st['rows'], st['flat'], s[2], oc)
+        else:
+            p = state[s[1]]
+            A = _alpha(p['enc'])
+            up = [[(c - 32 if 97 <= c <= 122 else c) for c in r] for r in p['rows']]
+            codes = [[A.index(c) for c in r] for r in up]
+            dst = 'Base' if s[0] == 'dec' else s[2]
+            state.append(dict(enc=dst, flat=p['flat'], rows=up, origin=('derived', p['enc'], dst, codes)))
+    st = state[case['focus']]
+    if st['origin'][0] == 'enc':
+        return dict(kind=0, route=st['origin'][1], dst=st['enc'], rows=[_s(r) for r in st['rows']])
+    return dict(kind=2, route=0 if st['flat'] else 2, src=st['origin'][1], dst=st['origin'][2], rows=st['origin'][3])
+
+
 def generate(tier, seed):
     rng = random.Random(seed * 7919 + 6)
     cases = []
@@ -462,6 +696,7 @@ def generate(tier, seed):
     cases += enc + pairs + _gen_views(tier, rng)
     cases += _gen_numeric(tier, rng) + _gen_string(tier, rng) + _gen_kmer(tier, rng)
     cases += _gen_2d(tier, rng)
+    cases += _gen_sessions(tier, rng)
     return cases
 
 
@@ -628,6 +863,8 @@ def _observe_ext(case):
 
 
 def observe(case):
+    if case['kind'] == 7:
+        return _observe_session(case)
     if case['kind'] >= 4:
         return _observe_ext(case)
     import numpy as np
@@ -765,6 +1002,8 @@ def _cout(o):
 
 
 def to_coq(case, o):
+    if case['kind'] == 7:
+        return to_coq(_session_term(case, o), o)
     kind = case['kind']
     if kind >= 4:
         if kind == 4:
@@ -802,6 +1041,8 @@ def _text_bytes(case):
 
 
 def nontrivial(case, o):
+    if case['kind'] == 7:
+        return True
     if case['kind'] == 3:
         return True
     if case['kind'] == 4:
@@ -826,9 +1067,9 @@ def describe(case, o):
 def distribution(cases, obs):
     d = dict(kind={}, route={}, outcome={}, text_len={}, encodings=len(ENCS) + len(ALIAS))
     for c, o in zip(cases, obs):
-        for key, v in (('kind', c['kind']), ('route', '%d/%d' % (c['kind'], c['route'])),
+        for key, v in (('kind', c['kind']), ('route', '%d/%d' % (c['kind'], c.get('route', -1))),
                        ('outcome', 'table' if 'table' in o else ('ok' if ('codes' in o or 'zcodes' in o) else o.get('err', '?'))),
-                       ('text_len', min(10, sum(len(r) for r in c.get('rows', c.get('queries', [])))))):
+                       ('text_len', min(10, sum(len(r) for r in c.get('rows', c.get('queries', [])))) if c['kind'] != 7 else len(c['steps']))):
             d[key][str(v)] = d[key].get(str(v), 0) + 1
     return d
 
@@ -842,6 +1083,8 @@ def _shifted_nonletters(e):
 
 def finding(case, o):
     kind = case['kind']
+    if kind == 7:
+        return None
     if kind == 5:
         # exactly: accepted although some query is not a label, and every such query has the hash of a label
         if 'zcodes' not in o:
@@ -881,7 +1124,9 @@ def finding(case, o):
 
 
 def signature(case, o):
-    return '%d/%s/%s' % (case['kind'], 'flat' if case['route'] in (0, 1, 3, 6) else 'rows',
+    if case['kind'] == 7:
+        return '7/%s/%s' % (case['steps'][_session_results(case['steps'])[case['focus']]][0], 'ok' if 'codes' in o else o.get('err'))
+    return '%d/%s/%s' % (case['kind'], 'flat' if case.get('route') in (0, 1, 3, 6) else 'rows',
                          'ok' if ('codes' in o or 'zcodes' in o) else ('table' if 'table' in o else o.get('err')))
 
 
